@@ -55,7 +55,7 @@ def setup(ctx):
 aux_seen = []
 
 
-def make_inner(rng, D, in_sig, out_sig, record):
+def make_inner(rng, D, in_sig, out_sig, record, claims_equivariant=False):
     """Random nonlinear, channel-mixing, position-dependent map MultiImage -> MultiImage (not equivariant)."""
     import jax.numpy as jnp
     import ginjax.geometric as geom
@@ -65,7 +65,13 @@ def make_inner(rng, D, in_sig, out_sig, record):
     Ws = {t: jnp.asarray(rng.normal(size=(c * D ** t[0], C)).astype(np.float32)) for t, c in out_sig}
     coef = rng.normal(size=(D,)).astype(np.float32)
 
+    import equinox as eqx
+
     class Inner(models.MultiImageModule):
+        # like the library's models the inner model may carry a static `equivariant` flag (for them it only means "built from
+        # the filter bank that was supplied", possibly invariant under a smaller group): a wrapper must not trust it
+        equivariant: bool = eqx.field(static=True, default=False)
+
         def __call__(self, x, aux_data=None):
             record.append({t: np.asarray(v) for t, v in x.data.items()})
             gain = 1.0
@@ -90,7 +96,7 @@ def make_inner(rng, D, in_sig, out_sig, record):
                 out[t] = h
             return geom.MultiImage(out, x.D, x.is_torus), aux_data
 
-    return Inner()
+    return Inner(equivariant=bool(claims_equivariant))
 
 
 def run(case, ctx):
@@ -119,7 +125,7 @@ def run_ga(case, ctx):
     record = []
     viols, evals, noise = [], 0, 0.0
     try:
-        inner = make_inner(rng, D, in_sig, out_sig, record)
+        inner = make_inner(rng, D, in_sig, out_sig, record, claims_equivariant=case["i"] % 3 == 1)
         empty_ops = case["i"] % 11 == 5
         ga = models.GroupAverage(inner, [] if empty_ops else [np.asarray(g) for g in Gp], always, inference)
         # multi-step history on the flags: the usual equinox idiom eqx.nn.inference_mode(model, value=...) switches the
